@@ -1,7 +1,8 @@
 (* C09: concurrent cache use is race-free, deadlock-free and behaves like some sequential order.
    Property theorems only.  Gen_locktab.table is REGENERATED from /repo/src/cache_storage.cpp on every run
    (tools/locktab.py): the *_table theorems are re-checked against the current source each time. *)
-From CppcmsV Require Import Base.Tac C09.Defs C09.Proofs1 C09.Proofs2 gen.Gen_locktab.
+From CppcmsV Require Import Base.Tac C09.Defs C09.Proofs1 C09.Proofs2 C09.Proofs3 C09.Proofs4 gen.Gen_locktab.
+From CppcmsV Require C07.Defs C09.Seq.
 From Coq Require Import String.
 
 (* ---------- group 1: the lock discipline extracted from the current source passes the decidable checks ---------- *)
@@ -107,6 +108,38 @@ Proof.
 Qed.
 Print Assumptions cache_mutators_isolated.
 
+(* ---------- group 4: linearizability ---------- *)
+(* FULL STATEMENT (DESIGN.md, theorem 2): every finite interleaved execution of k threads of the lock-level semantics,
+   with the data effect of each call given by the sequential model (C07.Defs through Seq.eff), produces a history that
+   is linearizable: some sequential order of the calls that respects real-time precedence makes the sequential model
+   return exactly the recorded results.
+   PROVED HERE: (i) atomic_effect_linearizable - for ANY sequential object, any system in which each call takes effect
+   atomically at one step between its invocation and its response produces only linearizable histories (any number of
+   threads and calls); (ii) its instance for the cache object.
+   GAP (named): that the lock-level execution of the real method bodies refines the atomic-effect system, i.e. that the
+   member accesses of one call can be moved together to one point (its lock point) without changing any value read.
+   Groups 1-3 give the premises of the standard two-phase-locking argument (race_free: conflicting accesses share a
+   lock in incompatible modes; two_phase: no acquisition after a release; mutators isolated; the value copy-out inside
+   the shared scope) but the data semantics of individual accesses is not modelled, so this step is argued on paper
+   (docs/C09.md) and searched on the real cache (recorded histories checked linearizable by bin/check). *)
+Theorem atomic_effect_linearizable :
+  forall (St Op Ret : Type) (eff : St -> Op -> St * Ret) (s0 : St) (c : lconfig St Op Ret),
+    lreachable St Op Ret eff s0 c -> linearizable St Op Ret eff s0 (l_hist St Op Ret c).
+Proof. exact atomic_effect_linearizable_l. Qed.
+Print Assumptions atomic_effect_linearizable.
+
+Theorem atomic_effect_state :
+  forall (St Op Ret : Type) (eff : St -> Op -> St * Ret) (s0 : St) (c : lconfig St Op Ret),
+    lreachable St Op Ret eff s0 c -> seq_run St Op Ret eff s0 (l_lin St Op Ret c) = l_st St Op Ret c.
+Proof. exact atomic_effect_state_l. Qed.
+Print Assumptions atomic_effect_state.
+
+Theorem cache_linearizable_partial : forall (limit : N) (now : Z) c,
+  lreachable cstate Seq.cop Seq.cret (cache_eff now) (cache_s0 limit) c ->
+  linearizable cstate Seq.cop Seq.cret (cache_eff now) (cache_s0 limit) (l_hist _ _ _ c).
+Proof. exact cache_atomic_linearizable_l. Qed.
+Print Assumptions cache_linearizable_partial.
+
 (* ---------- non-vacuity ---------- *)
 (* two threads are concurrently inside fetch, both under the shared lock, one of them inside the lru_mutex scope:
    the configuration is reachable, so the theorems above talk about genuinely concurrent executions *)
@@ -177,4 +210,17 @@ Proof.
       * contradiction.
       * vm_compute in Hin. contradiction.
   - exists 0%nat, 1%nat, f_lru, Wr. split; [discriminate|]. vm_compute. split; tauto.
+Qed.
+
+(* linearizability is not trivially true: a fetch that returns a value for a key nobody stored is not linearizable;
+   and it is not trivially false: two overlapping calls (store, fetch) of the atomic-effect system give a history in
+   which the fetch returns the stored entry, which the theorem declares linearizable *)
+Example linearizable_nonvacuous :
+  (forall limit now k v tr d g,
+     ~ linearizable cstate Seq.cop Seq.cret (cache_eff now) (cache_s0 limit)
+         [Inv Seq.cop Seq.cret 0 0 (Seq.OFetch k); Res Seq.cop Seq.cret 0 (Seq.RHit v tr d g)]) /\
+  linearizable cstate Seq.cop Seq.cret (cache_eff 1000%Z) (cache_s0 0%N) ex_hist.
+Proof.
+  split; [exact hit_without_store_not_linearizable|].
+  destruct ex_hist_reachable as (c & Hr & <-). now apply cache_atomic_linearizable_l.
 Qed.
